@@ -157,6 +157,29 @@ def splitBatches (c : Cache) : List Hash → List Hash → Nat → List (List Ha
     if flushNow sz' then (h :: cur).reverse :: splitBatches c rest [] 0
     else splitBatches c rest (h :: cur) sz'
 
+/-! ### the batch object (`ldbBatch`, middleware/db/leveldb.go) and the loop written against it
+
+`Put` appends the pair and adds `len(value)` to `size`; `ValueSize` returns `size`;
+`Reset` clears both; `Write` hands the collected pairs to the store in one call. -/
+
+structure BatchSt where
+  items : List Hash
+  size : Nat
+
+def BatchSt.put (b : BatchSt) (c : Cache) (h : Hash) : BatchSt := ⟨b.items ++ [h], b.size + sizeOf c h⟩
+def BatchSt.valueSize (b : BatchSt) : Nat := b.size
+def BatchSt.reset (_ : BatchSt) : BatchSt := ⟨[], 0⟩
+
+/-- the Put/flush loop of `commit` as the Go code has it: `batch.Put`; `if batch.ValueSize() >=
+    IdealBatchSize { batch.Write(); batch.Reset() }`; at the end the final `batch.Write()`.
+    `acc` collects the physical writes issued so far. -/
+def commitLoop (c : Cache) : List Hash → BatchSt → List (List Hash) → List (List Hash)
+  | [], b, acc => acc ++ [b.items]
+  | h :: rest, b, acc =>
+    let b1 := b.put c h
+    if flushNow b1.valueSize then commitLoop c rest b1.reset (acc ++ [b1.items])
+    else commitLoop c rest b1 acc
+
 /-- `batch.Put(hash, node.rlp())` reaching the disk. -/
 def putNode (c : Cache) (d : Disk) (h : Hash) : Disk :=
   match c.lookup h with
@@ -193,15 +216,67 @@ def commit (s : St) (root : Hash) (failAt : Option Nat) (fuel : Nat) : Option Co
       else
         some ⟨bs, true, ⟨uncache s.cache ws, applyBatches s.cache s.disk bs⟩⟩
 
+/-- the part of `Commit` after the walk, for a given Put sequence `ws` -/
+def commitWith (s : St) (failAt : Option Nat) (ws : List Hash) : CommitOut :=
+  let bs := splitBatches s.cache ws [] 0
+  match failAt with
+  | none => ⟨bs, true, ⟨uncache s.cache ws, applyBatches s.cache s.disk bs⟩⟩
+  | some k =>
+    if k < bs.length then ⟨bs.take k, false, ⟨s.cache, applyBatches s.cache s.disk (bs.take k)⟩⟩
+    else ⟨bs, true, ⟨uncache s.cache ws, applyBatches s.cache s.disk bs⟩⟩
+
+/-! ### the walk with an iteration order of its own at every visit
+
+Go randomises map iteration per `range` statement: `childs()` of one cached node
+can list its external children in different orders on two visits within the same
+commit.  `ords` is the sequence of orders the runtime picked, one entry per visit
+of a cached node, in visit order; an entry that does not name the node being
+visited or is not a re-ordering of its `ext` list is ignored (stored order used). -/
+
+abbrev Ords := List (Hash × List Hash)
+
+def sameMembers (a b : List Hash) : Bool :=
+  a.length == b.length && a.all (fun x => b.contains x) && b.all (fun x => a.contains x)
+
+/-- the order used for this visit of `h`, and the orders left for later visits -/
+def pickOrder (h : Hash) (ext : List Hash) : Ords → List Hash × Ords
+  | [] => (ext, [])
+  | (k, o) :: rest => if k == h && sameMembers o ext then (o, rest) else (ext, (k, o) :: rest)
+
+/-- children one after the other, threading the remaining orders -/
+def foldKids (g : Hash → Ords → Option (List Hash × Ords)) : List Hash → Ords → Option (List Hash × Ords)
+  | [], o => some ([], o)
+  | x :: xs, o =>
+    match g x o with
+    | none => none
+    | some (t, o1) =>
+      match foldKids g xs o1 with
+      | none => none
+      | some (ts, o2) => some (t ++ ts, o2)
+
+def walkO (c : Cache) : Nat → Hash → Ords → Option (List Hash × Ords)
+  | 0, _, _ => none
+  | f + 1, h, ords =>
+    match c.lookup h with
+    | none => some ([], ords)
+    | some n =>
+      let po := pickOrder h n.ext ords
+      match foldKids (walkO c f) (po.1 ++ n.inner) po.2 with
+      | none => none
+      | some (ts, o') => some (ts ++ [h], o')
+
+/-- `NodeDatabase.Commit(root)` when the runtime picked `ords` -/
+def commitV (s : St) (root : Hash) (failAt : Option Nat) (fuel : Nat) (ords : Ords) : Option CommitOut :=
+  match walkO s.cache fuel root ords with
+  | none => none
+  | some (ws, _) => some (commitWith s failAt ws)
+
 /-- process death: caches are gone, the disk stays. -/
 def die (s : St) : St := ⟨[], s.disk⟩
 
 /-- Go's map iteration order is arbitrary: replace the `ext` list of `h` by a
     list with the same members and length (anything else is refused; `ext` has
     no duplicates because `reference` skips a reference that already exists). -/
-def sameMembers (a b : List Hash) : Bool :=
-  a.length == b.length && a.all (fun x => b.contains x) && b.all (fun x => a.contains x)
-
 def CNode.setExt (n : CNode) (ord : List Hash) : CNode := { n with ext := ord }
 
 def reorderExt (c : Cache) (h : Hash) (ord : List Hash) : Cache :=
@@ -219,6 +294,8 @@ inductive Op where
   | reorder (h : Hash) (ord : List Hash)
   /-- `NodeDatabase.Commit(root)`; `failAt = some k`: the store refuses the (k+1)-th physical write -/
   | commit (root : Hash) (failAt : Option Nat)
+  /-- the same with an iteration order of its own at every visit (what the driver executes) -/
+  | commitV (root : Hash) (failAt : Option Nat) (ords : Ords)
   /-- process death -/
   | die
 
@@ -228,6 +305,7 @@ def step (emptyData emptyCode : Hash) (s : St) : Op → Option St
   | .ref child parent => (reference s.cache child parent).map fun c => { s with cache := c }
   | .reorder h ord => some { s with cache := reorderExt s.cache h ord }
   | .commit root failAt => (commit s root failAt (s.cache.length + 1)).map fun o => o.st
+  | .commitV root failAt ords => (commitV s root failAt (s.cache.length + 1) ords).map fun o => o.st
   | .die => some (die s)
 
 /-! ## readers -/
